@@ -22,6 +22,7 @@ def run(ctx):
     ctx.rule("C09.construction-restores", "the connection binds its session from journaler.create_or_load(target, sender) with matching roles; no constructor / connect path writes the counters")
     ctx.rule("C09.loaders-agree", "both journal load paths decode both stored counters as stored+1")
     ctx.rule("C09.renumbering-durable", "Journaler.set_seq_num commits; every accepted inbound message is journaled (persist_msg INBOUND is must-pass on the accept path of _finalize_message)")
+    ctx.rule("C09.accepted-is-counted", "E9: for every message class, a message at the expected number on an established session reaches the counter advance and the inbound journal write")
     ctx.rule("C09.restore-is-last", "in the resend handler nothing is journaled for the outbound direction after the saved counter was restored, and every normal exit after a rewind passes the restore")
     ctx.assumptions += ["SQLite commit durability (trusted)", "kill points inside SQLite are not analysed"]
 
@@ -224,6 +225,24 @@ def run(ctx):
         leak = g2.witness_path(rw.rewinds[0], [g2.exit], avoid=set(rw.restores), exc=False)
         ctx.instance("C09.restore-is-last", "_process_resend[rewind always restored on normal exit]", leak is None,
                      "a normal path leaves the replay with the rewound counter still live and stored", loc(rw.fn), g2.describe(leak or [])[-6:])
+
+    # ---- rule 7 (E9): every message at the expected number on an established session is counted and journaled, whatever its type
+    from sa import absint
+    it, outs = absint.inbound(repo, sink_raises=False)
+    ctx.evaluations += it.steps
+    for st0 in ("ACTIVE", "RESENDREQ_AWAITING"):
+        for kind in absint.KINDS:
+            if kind == "LOGON":
+                continue  # a Logon in mid-session is outside the property's histories
+            def m(e):
+                return e.s.state0 in (st0, "?") and e.s.kind in (kind, "?") and e.s.ord in ("EQ", "?") and e.s.integ in ("ok", "?")
+            counted = any(e.site == "nin_write" and e.info[1] in ("ACCEPT", "NEWSEQ") and m(e) for e in it.events)
+            journaled = any(e.site == "persist" and e.info[1] == "INBOUND" and m(e) for e in it.events)
+            ctx.instance("C09.accepted-is-counted", f"{st0},{kind},EQ", counted and journaled,
+                         f"an inbound {kind} carrying exactly the expected MsgSeqNum in state {st0} is "
+                         + ("not counted (next_num_in stays)" if not counted else "counted but not journaled")
+                         + ": live and stored counters fall behind the peer's, and after the next Logon a ResendRequest goes out although nothing was lost",
+                         loc(repo.func("AsyncFIXConnection._process_message")))
 
 
 def _paths(g, src, dst, avoid):
